@@ -12,6 +12,7 @@ inductive CutErr where
   | allThree      -- nr, dr and cutoff all given
   | stepAlone     -- dr without nr or cutoff
   | nonPositive   -- a given value is zero or negative
+  | tooFewRows    -- a row count of 1 (a table needs two rows to define its step)
 deriving DecidableEq, Repr
 
 structure CutOps (α : Type) where
@@ -46,23 +47,33 @@ def initCutoffTruthy {α : Type} (o : CutOps α) (isZero : α → Bool) (nr : Op
     else if (match c with | some c => o.le0 c | none => false) then .error .nonPositive
     else .ok (n, c)
 
-/-- CURRENT behaviour (after the `fix:` commit): signs are validated first, presence is tested with `is not None`. -/
+/-- `_check_positive`: the first complaint, in the order the code tests (nr <= 0, nr < 2, dr <= 0, cutoff <= 0) -/
+def checkPositive {α : Type} (o : CutOps α) (n : Option Int) (d c : Option α) : Option CutErr :=
+  if (match n with | some n => decide (n ≤ 0) | none => false) then some .nonPositive
+  else if (match n with | some n => decide (n < 2) | none => false) then some .tooFewRows
+  else if (match d with | some d => o.le0 d | none => false) then some .nonPositive
+  else if (match c with | some c => o.le0 c | none => false) then some .nonPositive
+  else none
+
+/-- CURRENT behaviour (after the `fix:` commits): signs (and the one-row grid) are validated first, presence is tested with `is not None`,
+    and the combined values are validated again. -/
 def initCutoff {α : Type} (o : CutOps α) (nr : Option Int) (dr cutoff : Option α) :
     Except CutErr (Option Int × Option α) :=
-  let bad (n : Option Int) (d c : Option α) : Bool :=
-    (match n with | some n => decide (n ≤ 0) | none => false) ||
-    (match d with | some d => o.le0 d | none => false) ||
-    (match c with | some c => o.le0 c | none => false)
-  if bad nr dr cutoff then .error .nonPositive
-  else
+  match checkPositive o nr dr cutoff with
+  | some e => .error e
+  | none =>
     match nr, dr, cutoff with
     | some _, some _, some _ => .error .allThree
     | some n, some d, none =>
         let c := o.mulPred n d
-        if bad (some n) (some d) (some c) then .error .nonPositive else .ok (some n, some c)
+        match checkPositive o (some n) (some d) (some c) with
+        | some e => .error e
+        | none => .ok (some n, some c)
     | none, some d, some c =>
         let n := o.rows c d
-        if bad (some n) (some d) (some c) then .error .nonPositive else .ok (some n, some c)
+        match checkPositive o (some n) (some d) (some c) with
+        | some e => .error e
+        | none => .ok (some n, some c)
     | _, some _, none => .error .stepAlone
     | n, none, c => .ok (n, c)
 
@@ -77,7 +88,7 @@ def rowsTrunc (c d : Float) : Int := ((c / d + 1).toUInt64.toNat : Int)
 def rowsSnap (c d : Float) : Int :=
   let q := c / d
   let nearest := q.round
-  if (q - nearest).abs ≤ 1e-9 * (if 1.0 ≤ q.abs then q.abs else 1.0) then
+  if (q - nearest).abs ≤ 1e-9 * (if q.abs > 1.0 then q.abs else 1.0) then      -- `max(1.0, abs(q))`: Python returns the second argument only when it is greater
     ((nearest.toUInt64.toNat : Int)) + 1
   else ((q + 1).toUInt64.toNat : Int)
 
